@@ -12,13 +12,15 @@ pub struct ChunkReader {
     pub eof_reads: Rc<RefCell<u32>>,
     pub handed: Rc<RefCell<usize>>,
     pub written: Rc<RefCell<Vec<u8>>>,
+    /// consecutive Interrupted results handed out (bounded: a transport that is interrupted forever is not of interest)
+    pub interrupts: u32,
 }
 
 impl ChunkReader {
     pub fn new(data: Vec<u8>, schedule: Vec<u16>) -> (Self, Rc<RefCell<usize>>, Rc<RefCell<u32>>) {
         let handed = Rc::new(RefCell::new(0usize));
         let eof = Rc::new(RefCell::new(0u32));
-        (ChunkReader { data, pos: 0, schedule, step: 0, eof_reads: eof.clone(), handed: handed.clone(), written: Rc::new(RefCell::new(Vec::new())) }, handed, eof)
+        (ChunkReader { data, pos: 0, schedule, step: 0, eof_reads: eof.clone(), handed: handed.clone(), written: Rc::new(RefCell::new(Vec::new())), interrupts: 0 }, handed, eof)
     }
 }
 
@@ -36,8 +38,15 @@ impl Read for ChunkReader {
             }
             return Ok(0);
         }
-        let cap = if self.schedule.is_empty() { usize::MAX } else { self.schedule[self.step % self.schedule.len()].max(1) as usize };
+        // a schedule entry of 0 stands for ErrorKind::Interrupted ("nothing read, try again"), at most twice in a row
+        let entry = if self.schedule.is_empty() { u16::MAX } else { self.schedule[self.step % self.schedule.len()] };
         self.step += 1;
+        if entry == 0 && self.interrupts < 2 {
+            self.interrupts += 1;
+            return Err(io::Error::new(io::ErrorKind::Interrupted, "injected EINTR"));
+        }
+        self.interrupts = 0;
+        let cap = if self.schedule.is_empty() { usize::MAX } else { entry.max(1) as usize };
         let n = buf.len().min(cap).min(self.data.len() - self.pos);
         buf[..n].copy_from_slice(&self.data[self.pos..self.pos + n]);
         self.pos += n;
